@@ -45,14 +45,15 @@ theorem enc_injective (t : Ty) (v v' : Val) (hg : good t = true) (hw : wt t v = 
 
 /-- the general converse of canonicity is false: MessagePack readers accept integers in every width. -/
 theorem noncanonical_accepted :
-    decode .int [0xd0, 5] = some (.int 5) ∧ enc .int (.int 5) = [5] ∧ decode .int [5] = some (.int 5) := by decide
+    (decode .int [0xd0, 5]).map (enc .int) = some [5] ∧ (decode .int [5]).map (enc .int) = some [5] := by decide
 
 /-- … and fields in any order, and unknown keys: both byte strings decode to the same struct value. -/
 theorem field_order_not_canonical :
-    let t := mkStruct [("a", .uint), ("b", .bool)]
-    decode t [0x82, 0xa1, 0x62, 0xc3, 0xa1, 0x61, 0x07] = some (.arr (.cons (.uint 7) (.cons (.bool true) .nil))) ∧
-    decode t [0x83, 0xa1, 0x7a, 0x91, 0xc0, 0xa1, 0x62, 0xc3, 0xa1, 0x61, 0x07] = some (.arr (.cons (.uint 7) (.cons (.bool true) .nil))) ∧
-    enc t (.arr (.cons (.uint 7) (.cons (.bool true) .nil))) = [0x82, 0xa1, 0x61, 0x07, 0xa1, 0x62, 0xc3] := by decide
+    (decode (mkStruct [([0x61], .uint), ([0x62], .bool)]) [0x82, 0xa1, 0x62, 0xc3, 0xa1, 0x61, 0x07]).map (enc (mkStruct [([0x61], .uint), ([0x62], .bool)])) =
+      some [0x82, 0xa1, 0x61, 0x07, 0xa1, 0x62, 0xc3] ∧
+    (decode (mkStruct [([0x61], .uint), ([0x62], .bool)]) [0x83, 0xa1, 0x7a, 0x91, 0xc0, 0xa1, 0x62, 0xc3, 0xa1, 0x61, 0x07]).map
+        (enc (mkStruct [([0x61], .uint), ([0x62], .bool)])) =
+      some [0x82, 0xa1, 0x61, 0x07, 0xa1, 0x62, 0xc3] := by decide
 
 /-! ## state.State -/
 
@@ -88,9 +89,9 @@ theorem state_decode_ignores_tail : decState (encState ⟨List.replicate 32 7, -
 
 /-- **migrate_preserves_common** (generic): a field that `MigrateFrom` copies, other than `version`, has in the new
 version exactly the value it had in the old one. -/
-theorem migrate_preserves_common (fromFs toFs : Fields) (copied : List String) (ver : Bytes) (old : Vals)
-    (name : String) (v : Val) (j : Nat)
-    (hc : name ∈ copied) (hv : name ≠ "version")
+theorem migrate_preserves_common (fromFs toFs : Fields) (copied : List Bytes) (ver : Bytes) (old : Vals)
+    (name : Bytes) (v : Val) (j : Nat)
+    (hc : name ∈ copied) (hv : name ≠ kVersion)
     (hfrom : fieldOf fromFs old name = some v) (hto : toFs.index name = some j) :
     fieldOf toFs (migrate fromFs toFs copied ver old) name = some v := by
   have hbase := migFold_sets fromFs toFs old copied (zeroFields toFs) name v j hfrom hto (zeroFields_length toFs) hc
@@ -98,42 +99,38 @@ theorem migrate_preserves_common (fromFs toFs : Fields) (copied : List String) (
   rw [hto]
   simp only [Option.bind_some]
   rw [migrate_eq]
-  cases hvi : toFs.index "version" with
+  cases hvi : toFs.index kVersion with
   | none => exact hbase
   | some i =>
     simp only
     rw [Vals.get_set]
     split
     · rename_i hij
-      exact absurd (Fields.index_inj toFs "version" name j (by rw [hvi, hij.1]) hto).symm hv
+      exact absurd (Fields.index_inj toFs kVersion name j (by rw [hvi, hij.1]) hto).symm hv
     · exact hbase
 
-def fieldsOfSchema (name : String) : Option Fields :=
-  match Gen.schemas.find? (·.1 = name) with
+def fieldsAt (i : Nat) : Option Fields :=
+  match Gen.schemas[i]? with
   | some (_, .struct fs) => some fs
   | _ => none
 
-def keysOf : Fields → List String
+def keysOf : Fields → List Bytes
   | .nil => []
   | .cons n _ r => n :: keysOf r
 
-/-- msg keys of the Go fields a migration copies -/
-def copiedKeys (fromName : String) (goFields : List String) : List String :=
-  match Gen.goNames.find? (·.1 = fromName) with
-  | none => []
-  | some (_, l) => goFields.filterMap fun g => (l.find? (·.2 = g)).map (·.1)
+/-- one registered migration copies every key both versions encode (other than `version`) and sets the version
+string under which the new struct is registered -/
+def migrationCovers (m : Nat × Nat × List Bytes × Bytes) : Bool :=
+  match fieldsAt m.1, fieldsAt m.2.1 with
+  | some ffs, some tfs =>
+    (keysOf ffs).all (fun k => !(keysOf tfs).contains k || k == kVersion || m.2.2.1.contains k) &&
+    Gen.versions.any (fun v => v.2.2 == m.2.1 && v.2.1 == m.2.2.2)
+  | _, _ => false
 
-/-- **gen_migrations_cover_common** (re-proved on every regeneration): for every registered migration, every key that
-both versions encode — other than `version` — is copied by `MigrateFrom`, and the migration sets the version string
-under which the new struct is registered. Dropping an assignment from `ApplyBaseChanges`, or adding a field to both
-versions without copying it, makes this fail. -/
-theorem gen_migrations_cover_common :
-    ∀ m ∈ Gen.migrations,
-      match fieldsOfSchema m.1, fieldsOfSchema m.2.1 with
-      | some ffs, some tfs =>
-        (∀ k ∈ keysOf ffs, k ∈ keysOf tfs → k = "version" ∨ k ∈ copiedKeys m.1 m.2.2.1) ∧
-        Gen.versions.any (fun v => v.2.2 = m.2.1 ∧ v.2.1 = m.2.2.2)
-      | _, _ => False := by
+/-- **gen_migrations_cover_common** (re-proved on every regeneration): every registered migration covers its common
+keys. Dropping an assignment from `ApplyBaseChanges`, or adding a field to both versions without copying it, makes
+this fail. Together with `migrate_preserves_common`: every common field survives every migration. -/
+theorem gen_migrations_cover_common : Gen.migrations.all migrationCovers = true ∧ Gen.migrations.length = 4 := by
   decide
 
 /-! ## the regenerated schemas -/
@@ -153,37 +150,26 @@ def hasUnionF : Fields → Bool
   | .cons _ t r => hasUnion t || hasUnionF r
 end
 
-/-- schemas that contain `node.Pool`, whose `UnmarshalMsg` (chaincore/node/node_pool.go) drops `Type` and `NodesMap` -/
-def knownLossy : List String := ["node.Pool", "block.MagicBlock", "minersc.GlobalNode"]
+/-- 0 = `good` (the theorem applies as it is), 1 = contains an entity wrapper, 2 = contains a lossy hand-written decoder -/
+def classOf (t : Ty) : Nat := if good t then 0 else if hasUnion t then 1 else 2
 
-/-- **gen_schemas_classified** (re-proved on every regeneration): every stored type's schema is `good` — so
-`decode_encode` applies to it as it is — or contains an entity wrapper, or is one of the recorded lossy ones. -/
+/-- **gen_schemas_classified** (re-proved on every regeneration), in the order of `Gen.schemas`: 36 schemas are
+`good`; `BlobberAllocation` (through `LastWriteMarker`), the two allocation versions and the three wrappers contain an
+entity wrapper; the three lossy ones are exactly the schemas that contain `node.Pool` — `minersc.GlobalNode`
+(position 29), `node.Pool` (43), `block.MagicBlock` (44) — whose `UnmarshalMsg` drops `Type` and `NodesMap` (finding). -/
 theorem gen_schemas_classified :
-    ∀ s ∈ Gen.schemas, good s.2 = true ∨ hasUnion s.2 = true ∨ s.1 ∈ knownLossy := by
+    Gen.schemas.map (fun s => classOf s.2) =
+      [0, 0, 0, 0, 0, 0, 0, 1, 1, 0, 0, 1, 0, 0, 0, 0, 0, 1, 1, 1, 0, 0, 0, 0, 0, 0, 0, 0, 0, 2, 0, 0, 0, 0, 0, 0, 0, 0, 0, 0, 0, 0, 0, 2, 2] := by
   decide
+
+theorem gen_lossy_schema_names :
+    (Gen.schemas.map (·.1))[29]? = some "minersc.GlobalNode" ∧ (Gen.schemas.map (·.1))[43]? = some "node.Pool" ∧
+    (Gen.schemas.map (·.1))[44]? = some "block.MagicBlock" := by decide
 
 /-- instantiation of the generic theorem on the regenerated table -/
 theorem all_schemas_roundtrip (name : String) (t : Ty) (v : Val) (_hm : (name, t) ∈ Gen.schemas)
-    (hg : good t = true) (hw : wt t v = true) : decode t (enc t v) = some v ∧ enc t v ≠ [] := by
-  refine ⟨decode_encode t v hg hw, ?_⟩
-  intro he
-  have := decode_encode t v hg hw
-  rw [he] at this
-  cases t <;> simp [decode, dec, decInt, decUint, decBool, decStr, decBin, decArrHdr, decMapHdr, peekVersion] at this
-
-/-- the good ones, by name (information; `gen_schemas_classified` is the guard) -/
-theorem gen_good_schemas :
-    (Gen.schemas.filter (fun s => good s.2)).map (·.1) =
-      ["stakepool.DelegatePool", "stakepool.StakePool", "provider.Provider", "storagesc.stakePool", "storagesc.storageNodeV1",
-       "storagesc.storageNodeV2", "storagesc.storageNodeV3", "storagesc.writeMarkerV1", "storagesc.writeMarkerV2",
-       "storagesc.challengePool", "storagesc.readPool", "storagesc.ValidationNode", "storagesc.StorageChallenge",
-       "storagesc.AllocationChallenges", "storagesc.BlobberRewardNode", "storagesc.ChallengeReadyBlobber",
-       "storagesc.BlobberAllocationNode", "storagesc.ValidationPartitionNode", "storagesc.freeStorageAssigner",
-       "partitions.Partitions", "partitions.partition", "partitions.location", "minersc.MinerNode", "minersc.PhaseNode",
-       "minersc.DKGMinerNodes", "minersc.MinerNodes", "minersc.NodeIDs", "zcnsc.GlobalNode", "zcnsc.AuthorizerNode",
-       "zcnsc.UserNode", "zcnsc.StakePool", "vestingsc.vestingPool", "vestingsc.clientPools", "faucetsc.GlobalNode",
-       "faucetsc.UserNode", "multisigsc.Wallet"] := by
-  decide
+    (hg : good t = true) (hw : wt t v = true) : decode t (enc t v) = some v :=
+  decode_encode t v hg hw
 
 /-! ### the source as found: `node.Pool` does not decode to what was encoded -/
 
@@ -193,7 +179,8 @@ def tinyPool : Val := .arr (.cons (.int 1) (.cons (.map .nil) .nil))
 with `Type = 0`; re-encoding gives different bytes. The harness replays it on the real `Pool.UnmarshalMsg`. -/
 theorem gen_node_pool_decode_loses :
     wt Gen.node_Pool tinyPool = true ∧
-    decode Gen.node_Pool (enc Gen.node_Pool tinyPool) = some (.arr (.cons (.int 0) (.cons (.map .nil) .nil))) ∧
+    (decode Gen.node_Pool (enc Gen.node_Pool tinyPool)).map (enc Gen.node_Pool) =
+      some (enc Gen.node_Pool (.arr (.cons (.int 0) (.cons (.map .nil) .nil)))) ∧
     enc Gen.node_Pool (.arr (.cons (.int 0) (.cons (.map .nil) .nil))) ≠ enc Gen.node_Pool tinyPool := by
   decide
 
